@@ -6,6 +6,8 @@ import (
 	"encoding/json"
 	"fmt"
 	"io"
+	"os"
+	"path/filepath"
 	"sort"
 	"strconv"
 	"strings"
@@ -1121,6 +1123,12 @@ func runC17(rc *RunCtx) {
 		}
 		data = append([]byte(nil), image...)
 		data[k] ^= 1 << bit
+		if d := os.Getenv("VERIF_DUMP_DIR"); d != "" {
+			// debugging aid of `vcheck replay`: the intact and the damaged image
+			os.WriteFile(filepath.Join(d, "image.bin"), image, 0644)
+			os.WriteFile(filepath.Join(d, "damaged.bin"), data, 0644)
+			os.WriteFile(filepath.Join(d, "text.txt"), fc.Text, 0644)
+		}
 	case fkReadErr:
 		if k > n {
 			k = n
